@@ -152,7 +152,7 @@ def run(ctx):
             ka, kb = rng.choice([(1, 2), (2, 1), (1, 3), (3, 1)])
             pens = [-1, -1, -1]
         threads = rng.choice([1, 4])
-        if i < (24 if ctx.quick else 160):
+        if i < (36 if ctx.quick else 240):
             # dedicated stream for the task-parallel controller (>= 500 columns on the shorter side, several threads): every kernel family,
             # in particular group-vs-group merges, whose two halves run as OpenMP tasks that the meetup must wait for
             n = rng.choice([510, 560, 700])
@@ -160,7 +160,7 @@ def run(ctx):
             ka, kb = rng.choice([(2, 2), (2, 2), (3, 2), (2, 3), (1, 2), (1, 1)])
             pens = [-1, -1, -1]
             threads = rng.choice([2, 4, 8, 16])
-            if i % 3 == 0:
+            if i % 3 != 1:
                 # two levels of the task-parallel controller (>= 1002 positions on the shorter side) with an indel lying across the middle row
                 # of the first split: the boundary states handed to the sub-problems are then gap states
                 # (protein only: on 4-letter alphabets a gap can almost always slide by a column, so the optimum is not certifiably unique)
@@ -168,8 +168,9 @@ def run(ctx):
                 alpha = gen.AA
                 n = rng.choice([1040, 1200, 1300])
                 a = list(gen.rand_seq(rng, alpha, n))
-                L = rng.choice([8, 20, 40])
-                pos = n // 2 - L // 2 + rng.randint(-3, 3)
+                n = rng.randint(1002, 1500) if rng.random() < 0.5 else n
+                L = rng.choice([1, 1, 2, 3, 8, 20, 40])
+                pos = (n // 2 + rng.randint(-2, 3)) if L <= 3 else (n // 2 - L // 2 + rng.randint(-3, 3))
                 # flanks that make the position of the indel unambiguous
                 a[pos - 1], a[pos], a[pos + L - 1], a[pos + L] = "W", "C", "G", "P"
                 a = "".join(a)
@@ -177,7 +178,7 @@ def run(ctx):
                 b = core[:pos] + core[pos + L:]
                 if rng.random() < 0.5:
                     a, b = b, a
-                ka, kb = rng.choice([(1, 1), (1, 1), (2, 1), (2, 2)])
+                ka, kb = rng.choice([(1, 1), (2, 1), (1, 2), (3, 1), (1, 3), (2, 2)])
                 threads = rng.choice([1, 4])
         todo.append(dict(kind=kind, a=a, b=b, t=t, pens=pens, ka=ka, kb=kb, bt=0 if kind == "protein" else 1, threads=threads))
     conv = []
